@@ -127,10 +127,15 @@ def get_attribute(ctx, obj, name):
         if name == 'indices':
             return lambda ctx, n: slice_indices(ctx, obj, n)
     if isinstance(obj, str):
+        if name == 'encode':
+            return lambda ctx, *a: obj.encode()
         if name in ('format', 'join'):
             ctx.dropped.add('str.' + name)
 
             def fmt(ctx, *a, **k):
+                hook = getattr(ctx, 'format_hook', None)
+                if hook is not None and name == 'format':
+                    return hook(obj, a, k)
                 for x in a:
                     if hasattr(x, 'sym_iterate') or hasattr(x, 'lazy_items'):
                         ops.iterate(ctx, x)  # a generator argument is consumed (its element expressions are evaluated)
